@@ -10,12 +10,12 @@ TECH = 'contract-based deductive verification (Verus/Z3) of function text extrac
 
 CLAIMED = {
     'C02': dict(
-        text='Deductive proof of frame conditions over the real text of MemoryLoc::{with_offset,into_value,write_val,write_all,memset}, UnwrapOrAlloca::unwrap_or_alloca the variant->enum arm of cast_into_memory, create_nil_value, the nil branch of the optional->optional arm and cast_payload_into_tagged_union (payload -> optional / error union): every store these functions emit lies inside the destination object [loc, loc+size(ty)) (and a freshly allocated slot is exactly size(ty) bytes), for all types, offsets and loop iterations.',
+        text='Deductive proof of frame conditions over the real text of MemoryLoc::{with_offset,into_value,write_val,write_all,memset}, UnwrapOrAlloca::unwrap_or_alloca the variant->enum arm of cast_into_memory, create_nil_value, the nil branch of the optional->optional arm and cast_payload_into_tagged_union (payload -> optional / error union): every store these functions emit lies inside the destination object [loc, loc+size(ty)); the register moves of the C ABI (unit abi_moves: handle_ret, build_fn Cast parameter) store register k at byte 8k of a fresh slot of the aggregate, i.e. inside rup(size, 8) bytes (and a freshly allocated slot is exactly size(ty) bytes), for all types, offsets and loop iterations.',
         note='Partial: cast_into_memory as a whole, cast_struct_to_struct, cast_array_to_array and the ABI copy loops are not under contract -- only the store-emitting callees they use. Trusted: Cranelift store footprints (shims/verus/clif.rs), layout contracts (proved in unit layout), disjointness of distinct slots/objects, operands carry their type\'s width. "A copy is made on assignment" is only covered as "the copy writes exactly the destination".',
         ref='DESIGN.md 5 (C02)'),
     'C03': dict(
-        text="Deductive proof over the real text of run_defers_to_label, break_to_label, and the lifted arms Stmt::Defer, Stmt::Continue, the start and the end of Expr::Block and the Expr::While arm, with ghost state (the sequence of expressions whose code has been emitted; the set of labels that may be jumped to): a reached defer is recorded last in the frame of its block and does not run then; when a block is left through its end the defers of its frame run there, last reached first, exactly once, and the frame is gone; break and continue run the defers of exactly the frames above the frame of the construct they name, innermost frame first, and leave the frame stack as it was; every labelled block and every loop has its own frame while its body is compiled (frame invariant), so unwinding stops at the construct being left and never runs defers of blocks that are not being left -- for frame stacks of any depth and any number of defers.",
-        note='Partial. Two genuine defects were found by these contracts on the pinned tree and repaired in /repo (break out of a loop ran all enclosing defers; continue ran none). Assumed: the recursive compile_expr emits the code of its expression at the insertion point and keeps its own pushes and pops balanced (stub); break / continue name only enclosing labels (hir); a deferred expression does not jump out of itself; Cranelift control flow shims. Not covered: return and .try propagation call sites (they go through break_to_label), hir::lower_defer / resolve_last_label, that the emitted code of a defer runs once at run time when blocks are re-entered (loops re-run their body code, which is the intended meaning).',
+        text="Deductive proof over the real text of run_defers_to_label, break_to_label, and the lifted arms Stmt::Defer, Stmt::Continue, the start and the end of Expr::Block, the Expr::While arm and the failing branch of Expr::Propagate (`.try`), with ghost state (the sequence of expressions whose code has been emitted; the set of labels that may be jumped to): a reached defer is recorded last in the frame of its block and does not run then; when a block is left through its end the defers of its frame run there, last reached first, exactly once, and the frame is gone; break and continue run the defers of exactly the frames above the frame of the construct they name, innermost frame first, and leave the frame stack as it was; every labelled block and every loop has its own frame while its body is compiled (frame invariant), so unwinding stops at the construct being left and never runs defers of blocks that are not being left -- for frame stacks of any depth and any number of defers.",
+        note='Partial. Two genuine defects were found by these contracts on the pinned tree and repaired in /repo (break out of a loop ran all enclosing defers; continue ran none). Assumed: the recursive compile_expr emits the code of its expression at the insertion point and keeps its own pushes and pops balanced (stub); break / continue name only enclosing labels (hir); a deferred expression does not jump out of itself; Cranelift control flow shims. Known gap (recorded in DESIGN.md, outside these contracts): a jump to a block's own exit block runs all defers of that block, also ones that were never reached. Not covered: the `return` call site, hir::lower_defer / resolve_last_label, that the emitted code of a defer runs once at run time when blocks are re-entered (loops re-run their body code, which is the intended meaning).',
         ref='DESIGN.md 5 (C03)'),
     'C08': dict(
         text='Deductive proof over the real text of compile_num_binary, cast_num, cast_ty_to_cranelift, NumberType::bit_width and the finalize_int closure: for every numeric type pair and every operand bit pattern the emitted instruction sequence denotes the two\'s-complement result the statement prescribes.',
@@ -47,7 +47,7 @@ CLAIMED = {
         ref='DESIGN.md 5 (C18)'),
     'C19': dict(
         text="Deductive proof over the real text of crates/codegen/src/convert/abi/x86_64.rs against the System V AMD64 psABI section 3.2.3 as transcribed in units/abi/spec.rs: Class::merge_eigthbyte is the psABI merge (rules a, b, d, f; commutative, associative); classify_eight_byte gives every eightbyte of ANY type (scalars, arrays, structs, enums, optionals, error unions, distinct types, nested to any depth) the merge of the classes of the scalars that lie in it (recursive spec eb_class, unbounded induction over the type); classify_arg returns exactly that for types of at most 16 bytes and MEMORY otherwise; the post-merger clean-up of classify_arg (lifted) implements rules (c) and (d); reg_component / split_aggregate give every eightbyte of an aggregate of 1..16 bytes a register of that eightbyte's class wide enough for the bytes left, the second one starting at byte 8; fn_ty_to_abi hands out the six integer and eight vector registers left to right exactly as the psABI prescribes -- an argument gets registers only if ALL its eightbytes get one, otherwise it goes to memory and consumes none, a MEMORY-class return value costs %rdi, zero-sized arguments cost nothing -- for every signature with any number of parameters.",
-        note='A BOUNDED stand-in (unit abi_bounded, through the cfg(capy_verif) hook) runs the real lowering on all structs of at most 2 (quick) / 3 (thorough) fields from a 15-element field set in 8 signatures each against a reference written from the psABI; it decides when a refactoring loses the proof and supplies concrete inputs. Partial: FnAbi::{to_cl,get_arg_list,ret_addr,handle_ret,build_fn} (the loads/stores that move the eightbytes) are not under contract; Cranelift is trusted to assign the host registers to the value types computed; domain conditions (explicit preconditions): layouts of all parts known, size != 64 bytes, 8-byte pointers, no pure-padding eightbyte in a small aggregate, scalars aligned (C17); only the x86-64 SysV file is covered (aarch64 / windows / simplified are not); comparison with the host gcc is not part of the proof.',
+        note='Unit abi_moves proves the moves: FnAbi::to_cl (hidden return pointer first, then the parameters of every argument in order; return registers in order), handle_ret (return register k is stored at byte 8k of a fresh slot of the aggregate size), the Cast arm of get_arg_list (register k is loaded from byte 8k of the argument) and the Cast parameter arm of build_fn (incoming register param+k is stored at byte 8k; the index of the following parameters shifts by count-1). A BOUNDED stand-in (unit abi_bounded, through the cfg(capy_verif) hook) runs the real lowering on all structs of at most 2 (quick) / 3 (thorough) fields from a 15-element field set in 8 signatures each against a reference written from the psABI; it decides when a refactoring loses the proof and supplies concrete inputs. Partial: ret_addr, the Indirect arms (by-value copies) and the return path of build_fn, and Expr::Call itself are not under contract; to_abiparam is assumed (iterator chain); Cranelift is trusted to assign the host registers to the value types computed; domain conditions (explicit preconditions): layouts of all parts known, size != 64 bytes, 8-byte pointers, no pure-padding eightbyte in a small aggregate, scalars aligned (C17); only the x86-64 SysV file is covered (aarch64 / windows / simplified are not); comparison with the host gcc is not part of the proof.',
         ref='DESIGN.md 5 (C19)'),
     'C24': dict(
         text="Deductive proof over the real text of the if/else chain of parse_expr_bp that picks (left_bp, right_bp) (lifted mechanically): for every token, the binding powers are exactly the documented table -- level l gets (2l-1, 2l) for `||` < `&&` < comparisons < `+ - | ~` < `* / % & << >>`, None for any other token -- and that table is proved to have what precedence climbing needs (higher level binds tighter, right power above left power = left associativity). The precedence-climbing loop around the table is recursive over a token stream and an event sink and gets a BOUNDED stand-in: every chain of at most 3 (quick) / 4 (thorough) of the 18 binary operators, also over prefixed and postfixed operands, parsed by the real lexer + parser and compared with the tree the table dictates.",
@@ -55,7 +55,7 @@ CLAIMED = {
         ref='DESIGN.md 5 (C24)'),
     'C25': dict(
         text='Deductive proof over the real text of LineIndex::line_col, Index<LineNr>::index and the Sub impls: for every text, every index built from it and every offset in it, line = number of newlines before the offset and column = offset - start of that line; no underflow, no out-of-bounds.',
-        note='Partial: LineIndex::new (iterator chain) is assumed to build the index (index_wf); TextSize modelled as u32; std partition_point contract assumed; the "file:line:col" rendering is not under contract.',
+        note='The printed `file:line:col` header (diagnostics::input_snippet) gets a BOUNDED stand-in (unit render_sites). Partial: LineIndex::new (iterator chain) is assumed to build the index (index_wf); TextSize modelled as u32; std partition_point contract assumed; the source snippet below the header is not covered.',
         ref='DESIGN.md 5 (C25)'),
     'C26': dict(
         text='Deductive, unbounded proof (Verus) over the real text of crates/topo: TopoSort::{default,len,is_empty,insert,insert_dep,remove,clear,peek_all,in_cycle,peek_all_cyclic} and Dependencies::new, with indexmap replaced by a specified shim. An inductive representation invariant (the counter of every pending item equals the number of pending items that list it as a dependant; keys distinct) is preserved by every mutator from an ARBITRARY well-formed state, hence over every history of any length and any number of items; under it peek_all offers exactly the items all of whose registered dependencies have completed, a cycle is reported iff the schedule is non-empty and every item still waits, remove makes an item disappear until it is re-registered, counters never underflow.',
